@@ -170,7 +170,7 @@ def payload(kind, seed):
         v = seed
         for i in range(40): v = (v,) if i % 2 else [v]
         return v
-    if kind == 'bigarray': return r.randint(0, 255, size=30000 + seed % 1000).astype(float)
+    if kind == 'bigarray': return r.randint(0, 255, size=2600 + seed % 100).astype(float)   # > 2 buffer blocks of BufferedRandom
     if kind == 'manylogs': return [seed] * 3
     if kind == 'topo':
         from nutils import mesh
@@ -344,6 +344,14 @@ def bytes_s(b):
     return ' '.join(map(str, b))
 
 
+def file_show(b):
+    """same rendering as `showFile` in the driver: long files by length and polynomial hash"""
+    if len(b) <= 3000: return bytes_s(b)
+    h = 0
+    for x in b: h = (h * 257 + x + 1) % 1000000007
+    return '#%d:%d' % (len(b), h)
+
+
 def read(path):
     try:
         with open(path, 'rb') as f: return f.read()
@@ -368,7 +376,7 @@ class Ctx:
         self.forks = 0
         # calibrate: forks and file operations are 10-100x slower when the machine is loaded (several builders share it)
         t = time.time(); forked(lambda: None); forked(lambda: None); self.fork_cost = (time.time() - t) / 2
-        self.max_forks = int(min(400 if c.tier == 'quick' else 6000, (12 if c.tier == 'quick' else 240) / max(self.fork_cost, 1e-3)))
+        self.max_forks = int(min(150 if c.tier == 'quick' else 6000, (8 if c.tier == 'quick' else 240) / max(self.fork_cost, 1e-3)))
         c.extra['fork_cost_s'] = round(self.fork_cost, 4); c.extra['max_forks'] = self.max_forks
 
     def fork_budget(self):
@@ -393,7 +401,10 @@ class Ctx:
             out, n, log, trace = real_call(d, kind, seed)
             files = os.listdir(d)
             D = read(os.path.join(d, files[0])) if len(files) == 1 else None
-            self.ref[kind, seed] = dict(D=D, spec=spec, slog=slog, files=files, first=(out, n, log, trace))
+            self.ref[kind, seed] = ref = dict(D=D, spec=spec, slog=slog, files=files, first=(out, n, log, trace))
+            # the very first call on a fresh cache directory is itself a case of the property
+            if not check_completed(self, 'first-call', dict(stream='reference', payload=kind, pseed=seed), out, n, log, ref) or (spec[0] == 'ret' and not D):
+                ref['D'] = None
             self.drop(d)
         return self.ref[kind, seed]
 
@@ -479,12 +490,15 @@ def stream_h3_processes(X):
             '  rl = treelog.RecordLog()\n  with treelog.set(rl): c18.emit_logs(kind, 1)\n'
             '  print(kind, pickle.dumps((c18.payload(kind, 1), rl)).hex())\n')
     outs = []
-    for hs in ('1', '2'):
-        env = dict(os.environ, PYTHONHASHSEED=hs)
-        p = subprocess.run([sys.executable, '-c', code], env=env, stdout=subprocess.PIPE, stderr=subprocess.PIPE, text=True, timeout=300)
+    ps = [subprocess.Popen([sys.executable, '-c', code], env=dict(os.environ, PYTHONHASHSEED=hs), stdout=subprocess.PIPE, stderr=subprocess.PIPE, text=True) for hs in ('1', '2')]
+    for p in ps:
+        try:
+            so, se = p.communicate(timeout=900)
+        except subprocess.TimeoutExpired:
+            p.kill(); raise Infra('H3 subprocess timed out')
         if p.returncode != 0:
-            raise Infra('H3 subprocess failed: ' + p.stderr[-500:])
-        outs.append(dict(l.split() for l in p.stdout.splitlines()))
+            raise Infra('H3 subprocess failed: ' + se[-500:])
+        outs.append(dict(l.split() for l in so.splitlines()))
     differ = [k for k in KINDS if outs[0][k] != outs[1][k]]
     for k in KINDS:
         c.count('H3:across-processes:' + ('differs' if k in differ else 'same'))
@@ -499,7 +513,7 @@ def stream_h3_processes(X):
         stats = collections.Counter()
         want = canon(pickle.loads(D1))
         for m in range(1, len(D1)):
-            for k in range(0, m, max(1, m // 8)):
+            for k in range(0, m, max(1, m // (8 if c.tier == 'thorough' else 3))):
                 res, v = load_outcome(tmp, D2[:k] + D1[k:m], X.caught_fn_classes)
                 stats[res if res != 'loaded' else ('loaded-right' if canon(v) == want else 'loaded-WRONG')] += 1
         for s, n in stats.items(): c.count('H3-violated-overlay:%s:%s' % (k_, s), n)
@@ -591,6 +605,7 @@ def stream_function_histories(X):
         isexc = ref['spec'][0] == 'exc'
         if isexc:
             D = b''; key = expected_key(fpay, 0, (kind, seed), dict(opt=1))
+            if ref['D'] is None: continue
         else:
             D = ref['D']; key = ref['files'][0] if ref['files'] else 'missing'
             if D is None:
@@ -659,7 +674,7 @@ def stream_function_histories(X):
             raise Infra('C18 driver rejected a request: ' + rq[:200])
         mans = iter(a.split(';') if a else [])
         rep = dict(stream='function-histories', payload=kind, pseed=seed, init=init, events=evs, file0=list(file0), model=a[:2000])
-        good_init = init in ('empty', 'prefix', 'complete', 'tail', 'oldok')
+        good_init = init in ('empty', 'prefix', 'complete', 'tail', 'oldok', 'oldfail', 'oldfail-long')
         ok = True
         c.case((kind, seed, init, tuple(evs)), nontrivial=len(evs) > 1 or init != 'empty')
         c.count('fh:init:' + init); c.count('fh:kind:' + kind)
@@ -678,7 +693,17 @@ def stream_function_histories(X):
             mo, mfile = next(mans).split('@')
             mo = mo.split()
             if mo[0] == 'crash' and mo[1] == 'other':
-                c.count('fh:model-no-prediction'); break
+                # outside the idealised pickle: only reachable here as `take k new ++ drop k old` with `old` an old-format
+                # (log, fail=True, value) entry that a killed writer was replacing.  Exploration: what does the real code do?
+                if init.startswith('oldfail') and any(x[0] == 'kill' for x in evs):
+                    if r[0] == 'call':
+                        out = r[1]
+                        c.count('fh:mixture-over-old-format:' + ('right' if out == ref['spec'] else 'WRONG-VALUE' if out[0] == 'ret' else 'raises ' + str(out[1:2])))
+                        if out[0] == 'ret' and out != ref['spec']:
+                            c.failing_input('function-not-transparent:mixture-over-old-format', 'a killed rewrite of an old-format failed entry left a file that loads silently as a wrong value', rep)
+                else:
+                    c.count('fh:model-no-prediction')
+                break
             if r[0] == 'call':
                 out, n, log, inner = r[1:5]
                 c.count('fh:real:' + out[0] + ':n%d' % n)
@@ -720,6 +745,8 @@ def stream_function_histories(X):
                 break
             X.c.traces += 1
         ndis += not ok
+    if c.counters.get('fh:model-no-prediction'):
+        ndis += 1; c.broken_no_input('corr:function:model-domain', 'the idealised pickle of the model made no prediction for %d histories' % c.counters['fh:model-no-prediction'], {})
     c.obligation('corr:function:histories', ndis == 0, 'correspondence', '%d histories' % len(reals))
 
 
@@ -813,6 +840,7 @@ def _generator(length, spec, history, index):
             treelog.info('about to be interrupted at', i)
             raise Transient()
         treelog.info('item', i)
+        if STATE.get('rgate'): STATE['rgate'](i)
         if i % 2:
             with treelog.context('ctx %d' % i):
                 treelog.user('len(history)=%d' % len(h))
@@ -859,9 +887,9 @@ class RecB2(_RecPlain, cache.Recursion, length=2): pass
 RECS = [RecA0, RecA1, RecA2, RecA3, RecB1, RecB2]
 
 
-def real_iter(cachedir, obj, n, fault=None, killpickle=None, enabled=True):
+def real_iter(cachedir, obj, n, fault=None, killpickle=None, enabled=True, logger=None):
     """iterate a REAL Recursion object, taking at most n items; returns dict(items=[(value, log)], fin, finlog, resumed, ncomp)"""
-    rec = Recorder()
+    rec = logger or Recorder()
     RSTATE.update(next=0, fault=fault, trace=[])
     items = []; fin = 'closed'; finlog = None
     if killpickle: cache.pickle = killpickle
@@ -1022,6 +1050,8 @@ def stream_recursion(X):
                 c.broken_no_input('corr:recursion:layout', 'cache layout is not <dir>/<hash>/<0000..>: %s %s' % (r['subs'], r['names'][:5]), rep); break
             c.traces += 1
         ndis += not ok
+    if c.counters.get('rec:model-no-prediction'):
+        ndis += 1; c.broken_no_input('corr:recursion:model-domain', 'the idealised pickle of the model made no prediction for %d histories' % c.counters['rec:model-no-prediction'], {})
     c.obligation('corr:recursion:histories', ndis == 0, 'correspondence', '%d histories' % len(reals))
 
     # ---- every truncation point of every item file of a finite recursion (oracle: the uncached sequence; the state satisfies `Inv`)
@@ -1165,8 +1195,10 @@ def stream_concurrency(X):
         ref = X.reference(kind, seed)
         isexc = ref['spec'][0] == 'exc'
         D = b'' if isexc else ref['D']
+        if ref['D'] is None: continue
         key = expected_key(fpay, 0, (kind, seed), dict(opt=1))
         np_ = c.rng.choice([2, 3, 3])
+        WJ = 'W' if len(D) <= 1500 else 'J'   # byte-by-byte steps for small entries, the proved shortcut for big ones
         d = X.newdir()
         path = os.path.join(d, key)
         file0 = b'' if (isexc or c.rng.random() < .7) else D[:c.rng.randrange(len(D))]
@@ -1185,7 +1217,7 @@ def stream_concurrency(X):
             nonlocal holder, viol
             if msg == 'B' and holder is not None and holder != q.p and procs[holder].state == 'running':
                 # the holder was let go and may have released the lock already: its report can be behind this one
-                for q2, m2 in wait_msgs([procs[holder]], long_t): handle(q2, m2)
+                dispatch(wait_msgs([procs[holder]], long_t))
             log.append((q.p, msg))
             if msg in ('A', 'B', 'C', 'D'):
                 q.state = 'gate'; q.at = msg
@@ -1207,18 +1239,23 @@ def stream_concurrency(X):
                 q.state = 'done'; q.result = msg.split()[1:]
                 infunc.discard(q.p)
                 if at_write.pop(q.p, None):
-                    acts.append('W %d %d' % (q.p, len(D))); acts.append('s %d' % q.p)
+                    acts.append('%s %d %d' % (WJ, q.p, len(D))); acts.append('s %d' % q.p)
                 else:
                     acts.append('s %d' % q.p)   # hit (from B) or raising function (from C)
                 if holder == q.p: holder = None
             elif msg == 'EOF' and q.state != 'done':
                 q.state = 'dead'
 
+        def dispatch(msgs):
+            # reports of different processes travel through different pipes: a release ('done') may be read in the same
+            # batch as the acquisition it enabled, so releases are handled first
+            for q, msg in sorted(msgs, key=lambda x: 0 if x[1].startswith('done') else 1): handle(q, msg)
+
         try:
             # everybody reaches gate A
             t_end = time.time() + long_t
             while any(q.state == 'start' for q in procs) and time.time() < t_end:
-                for q, msg in wait_msgs(procs, long_t): handle(q, msg)
+                dispatch(wait_msgs(procs, long_t))
             if any(q.at != 'A' for q in procs):
                 raise Infra('concurrency: a child did not reach the first gate: %s' % log)
             for step in range(60):
@@ -1242,7 +1279,7 @@ def stream_concurrency(X):
                                 kq = 0
                             else:
                                 kq = ks[0]
-                            acts.append('W %d %d' % (q.p, kq)); acts.append('k %d' % q.p)
+                            acts.append('%s %d %d' % (WJ, q.p, kq)); acts.append('k %d' % q.p)
                         else:
                             acts.append('k %d' % q.p)
                         if holder == q.p: holder = None
@@ -1252,10 +1289,12 @@ def stream_concurrency(X):
                         if at == 'C': prev_file = read(path)
                         q.go()
                 expect_progress = any(q.state == 'running' and q.p not in pending for q in procs) or (pending and holder is None)
+                t0 = time.time()
                 got = wait_msgs(procs, long_t if expect_progress else short_t)
-                for q, msg in got: handle(q, msg)
+                if os.environ.get('C18_DEBUG'): c.log('wait %.2fs expect=%s got=%s holder=%s pending=%s states=%s' % (time.time() - t0, bool(expect_progress), [(q.p, m) for q, m in got], holder, sorted(pending), [(q.state, q.at) for q in procs]))
+                dispatch(got)
                 # drain follow-up messages that are already there
-                for q, msg in wait_msgs(procs, 0.02): handle(q, msg)
+                dispatch(wait_msgs(procs, 0.02))
                 if viol and viol.startswith('INFUNC'): break
             if viol is None and any(q.state in ('gate', 'running') for q in procs) and not pending:
                 pass
@@ -1288,8 +1327,9 @@ def stream_concurrency(X):
         reqs.append('par|%s|%s|%s|%s|%s|1|%d|%s' % (table, caught_s, f_s, ';'.join([bytes_s(D)] * np_), bytes_s(file0), np_, ';'.join(acts)))
         runs.append((rep, procs, final, np_, D))
         X.drop(d)
-    # model: W p k is 'run until k bytes are written'
+    c.log('concurrency: real schedules done')
     ans = c.model(reqs)
+    c.log('concurrency: model done (%d bytes of requests)' % sum(map(len, reqs)))
     for (rep, procs, final, np_, D), a, rq in zip(runs, ans, reqs):
         if a.startswith('bad-request'):
             raise Infra('C18 driver rejected a request: ' + rq[:300])
@@ -1304,13 +1344,141 @@ def stream_concurrency(X):
                 ok &= mp == want
             else:
                 ok &= mp == 'dead'
-        if not ok or last['holder'] != '-' or last['file'].strip() != bytes_s(final):
+        if not ok or last['holder'] != '-' or last['file'].strip() != file_show(final):
             ndis += 1
             c.broken_no_input('corr:lock:schedule', 'final state differs from the model: model procs=%s holder=%s file %d bytes; code %s file %d bytes'
                               % (last['procs'], last['holder'], len(last['file'].split()), rep['results'], len(final)), dict(rep, model=a[-1500:]))
         c.traces += 1
     c.obligation('corr:lock:schedules', ndis == 0, 'correspondence', '%d schedules of 2-3 real processes' % NS)
 
+
+
+class RecGateLog(Recorder):
+    """logger of a child that iterates a Recursion: reports lock/load/store per item; the generator itself gates"""
+
+    def __init__(self, wfd, rfd):
+        super().__init__()
+        self.wfd, self.rfd = wfd, rfd
+
+    def gate(self, tag):
+        os.write(self.wfd, (tag + '\n').encode())
+        if os.read(self.rfd, 1) != b'g':
+            os._exit(9)
+
+    def write(self, msg, level):
+        if level == Level.debug and isinstance(msg, str) and msg.startswith('[cache.Recursion'):
+            head, t = msg.split('] ', 1)
+            item = head.rsplit('.', 1)[-1]
+            tag = {'acquiring lock': 'A', 'lock acquired': 'B', 'store': 'S', 'load': 'L'}.get(t)
+            if tag and item.isdigit():
+                os.write(self.wfd, ('%s %d\n' % (tag, int(item))).encode())
+        else:
+            super().write(msg, level)
+
+
+class RecProc(Proc):
+    def __init__(self, p, cachedir, obj, n, want):
+        r1, w1 = os.pipe(); r2, w2 = os.pipe()
+        sys.stdout.flush(); sys.stderr.flush()
+        pid = os.fork()
+        if pid == 0:
+            code = 5
+            try:
+                os.close(r1); os.close(w2)
+                log = RecGateLog(w1, r2)
+                STATE['rgate'] = lambda i: log.gate('C %d' % i)
+                r = real_iter(cachedir, obj, n, logger=log)
+                res = 'ok' if ([x[0] for x in r['items']], r['fin']) == want else 'WRONG'
+                os.write(w1, ('done %s %d\n' % (res, r['ncomp'])).encode())
+                code = 0
+            finally:
+                os._exit(code)
+        os.close(w1); os.close(r2)
+        self.pid, self.r, self.w, self.p = pid, r1, w2, p
+        self.buf = b''; self.at = None; self.state = 'running'; self.result = None
+        self.msgs = []
+
+
+def stream_recursion_concurrency(X):
+    """two real processes iterate the same Recursion; one is held inside `next(resume)` of item i (it owns the lock of
+    item file i): the other must read the finished items and then wait, never compute item i at the same time"""
+    c = X.c
+    NS = 3 if c.tier == 'quick' else 30
+    long_t = max(20.0, 200 * X.fork_cost)
+    short_t = min(1.0, max(0.2, 3 * X.fork_cost))
+    nbad = 0
+    for sno in range(NS):
+        cls = c.rng.choice([RecA1, RecA2, RecB1])
+        nitems = c.rng.randint(3, 5)
+        spec = (nitems, 'stop', 'tuple' if cls is RecB1 else 'int', c.rng.randint(1, 9), c.rng.randint(0, 99))
+        obj = cls(spec, 'conc%d-%d' % (c.seed, sno))
+        specrun = real_iter(None, obj, nitems + 2, enabled=False)
+        want = ([x[0] for x in specrun['items']], specrun['fin'])
+        hold = c.rng.randrange(nitems)          # item at which process 0 is held inside the generator
+        kill = c.rng.random() < .4
+        d = X.newdir()
+        log = []
+        viol = None
+        procs = []
+        rep = dict(stream='recursion-concurrency', cls=cls.__name__, spec=spec, hold=hold, kill=kill, log=log)
+
+        def pump(timeout, until=None):
+            """collect messages; returns True when `until(q, msg)` was seen"""
+            end = time.time() + timeout
+            hit = False
+            while time.time() < end and not hit:
+                got = wait_msgs([q for q in procs if q.state == 'running'], max(0.01, end - time.time()))
+                for q, m in got:
+                    log.append((q.p, m)); q.msgs.append(m)
+                    if m.startswith('C'): q.state = 'gate'; q.at = m
+                    if m.startswith('done'): q.state = 'done'; q.result = m.split()[1:]
+                    if until and until(q, m): hit = True
+                if not got: break
+            return hit
+        try:
+            p0 = RecProc(0, d, obj, nitems + 2, want); procs.append(p0)
+            # process 0 computes items 0..hold-1 and is then held inside next(resume) for item `hold`
+            ok0 = True
+            for i in range(hold + 1):
+                ok0 &= pump(long_t, lambda q, m: q is p0 and m == 'C %d' % i)
+                if i < hold: p0.go()
+            if not ok0:
+                raise Infra('recursion concurrency: process 0 did not reach item %d: %s' % (hold, log))
+            p1 = RecProc(1, d, obj, nitems + 2, want); procs.append(p1)
+            # process 1 must load items < hold and then wait for the lock of item `hold`
+            pump(long_t, lambda q, m: q is p1 and m == 'A %d' % hold)
+            pump(short_t)
+            if 'B %d' % hold in p1.msgs:
+                viol = 'process 1 acquired the lock of item file %d while process 0 computes that item' % hold
+                pump(long_t, lambda q, m: q is p1 and m.startswith('C'))
+                if p1.state == 'gate' and p1.at == 'C %d' % hold:
+                    viol = 'INFUNC both processes are inside next(resume) for item %d at the same time' % hold
+            if kill and not viol:
+                p0.kill(); log.append((0, 'KILL'))
+            # let everybody run to the end
+            for _ in range(4 * nitems + 8):
+                for q in procs:
+                    if q.state == 'gate': q.go()
+                if all(q.state in ('done', 'dead') for q in procs): break
+                pump(long_t, lambda q, m: m.startswith('C') or m.startswith('done'))
+        finally:
+            for q in procs: q.close()
+        c.case(('rconc', cls.__name__, spec, hold, kill), nontrivial=True); c.count('rconc:schedules'); c.count('rconc:kill' if kill else 'rconc:nokill')
+        subs, files, names = rec_files(d, nitems + 1)
+        X.drop(d)
+        if viol and viol.startswith('INFUNC'):
+            nbad += 1; c.failing_input('recursion-lock-not-exclusive', viol[7:], rep); continue
+        bad = [q.p for q in procs if q.state == 'done' and q.result[0] != 'ok']
+        if bad:
+            nbad += 1; c.failing_input('recursion-concurrent-wrong-sequence', 'concurrent iterations %s yield a different sequence than the uncached one' % bad, rep); continue
+        stuck = [q.p for q in procs if q.state not in ('done', 'dead')]
+        if viol or stuck:
+            nbad += 1; c.broken_no_input('corr:recursion:lock', viol or 'processes %s never finished' % stuck, rep); continue
+        # items before `hold` were loaded by process 1, not recomputed; afterwards every item file is complete
+        loaded = [m for m in p1.msgs if m.startswith('L ')]
+        if [m for m in loaded[:hold]] != ['L %d' % i for i in range(hold)] or any(not f for f in files):
+            nbad += 1; c.broken_no_input('corr:recursion:lock', 'process 1 did not load the finished items %s, or item files incomplete' % loaded, rep)
+    c.obligation('corr:recursion:lock', nbad == 0, 'correspondence', '%d two-process schedules on the item-file lock' % NS)
 
 # =============================================================================================== stream U: users of cache.function
 
@@ -1399,7 +1567,7 @@ def run(c):
     for st in (stream_hypotheses, stream_h3_processes, stream_truncation, stream_function_histories, stream_keys):
         if only and st.__name__ not in only: continue
         st(X); c.log('done', st.__name__)
-    for st in (stream_recursion, stream_concurrency, stream_users):
+    for st in (stream_recursion, stream_concurrency, stream_recursion_concurrency, stream_users):
         if only and st.__name__ not in only: continue
         st(X); c.log('done', st.__name__)
 
